@@ -188,6 +188,11 @@ def run(ctx):
     ctx.rule("R1", "frame builders: no value replaced by a constant chart under a condition on the bond vector; chart regions stay tiny")
     ctx.rule("R2", "translation invariance: coordinates are read only as differences or by inventoried origin-dependent consumers")
     ctx.rule("R3", "pair selection is rotation invariant: the only coordinate-dependent factor of the pair list tests |r_i - r_j| (or its square) against the cutoff")
+    ctx.rule("R4", "Euler-angle frame builders of the overlap routines are orthonormal on both charts: ca^2 + sa^2 = 1 and cb^2 + sb^2 = 1 in the generic branch and at the z pole")
+    ctx.rule("R5", "one-centre Fock terms are isotropic in the p shell (all 10 elements equal the first-principles NDDO sums; shared with C06-R3)")
+    _r4_euler_frames(ctx, repo)
+    from .c06 import one_center_first_principles
+    one_center_first_principles(ctx, repo, "R5")
     from .c19 import check_pair_predicate
     check_pair_predicate(ctx, "R3")
 
@@ -269,3 +274,110 @@ def run(ctx):
                       f"results may change under translation of the molecule")
     if n < 30:
         raise AnalysisError(f"only {n} coordinate reads found")
+
+
+def _r4_euler_frames(ctx, repo):
+    """The Slater-Koster rotation of the overlap blocks uses (ca, sa) = (cos, sin) of the azimuth and (cb, sb) of the polar angle of the unit
+    bond vector.  Each is read on two charts -- generic (x^2 + y^2 > 0) and z pole -- from its masked store / torch.where / clamp definition;
+    on both charts the pairs must be unit vectors, otherwise the rotated overlap block is not an orthogonal transform of the local one
+    (pi overlaps are scaled or dropped for bonds on the z axis)."""
+    import sympy as sp
+    x, y, z = sp.symbols("x y z", real=True)
+    t = sp.Symbol("t", real=True)       # sign(z) at the pole, t^2 = 1
+    n = 0
+    for rel in ("seqm/seqm_functions/diat_overlapD.py", "seqm/seqm_functions/diat_overlap.py"):
+        if not repo.has(rel):
+            continue
+        m = repo.mod(rel)
+        for qual, f in m.functions.items():
+            names = {st.targets[0].id for st in ast.walk(f) if isinstance(st, ast.Assign) and len(st.targets) == 1 and isinstance(st.targets[0], ast.Name)}
+            if not {"ca", "sa", "cb", "sb"} <= names or m.qualname_of(f.body[0]) != qual:
+                continue
+            vals = {}
+            for chart in ("generic", "pole"):
+                env = {}
+                xy_s = sp.sqrt(x ** 2 + y ** 2)
+
+                def ev(e, chart=chart, env=env):
+                    if isinstance(e, ast.Constant):
+                        return sp.nsimplify(e.value)
+                    if isinstance(e, ast.Name):
+                        if e.id in env:
+                            return env[e.id]
+                        raise AnalysisError(f"frame: unbound {e.id}")
+                    if isinstance(e, ast.UnaryOp) and isinstance(e.op, ast.USub):
+                        return -ev(e.operand)
+                    if isinstance(e, ast.BinOp):
+                        a, b = ev(e.left), ev(e.right)
+                        return {ast.Add: a + b, ast.Sub: a - b, ast.Mult: a * b, ast.Div: a / b}.get(type(e.op)) if type(e.op) in (ast.Add, ast.Sub, ast.Mult, ast.Div) else _bad(e)
+                    if isinstance(e, ast.Subscript):
+                        base = norm(e.value)
+                        idx = e.slice.elts if isinstance(e.slice, ast.Tuple) else [e.slice]
+                        last = idx[-1]
+                        if base == "xij" and isinstance(last, ast.Constant) and last.value in (0, 1, 2):
+                            return (x, y, z)[last.value]
+                        return ev(e.value)          # mask view
+                    if isinstance(e, ast.Call):
+                        nm = (call_name(e) or "")
+                        at = callee_attr(e)
+                        if nm.endswith(".norm") and e.args and "xij[..., :2]" in norm(e.args[0]):
+                            return xy_s
+                        if nm.endswith(".where") and len(e.args) == 3:
+                            return ev(e.args[1] if chart == "generic" else e.args[2])
+                        if nm.endswith(".tensor") and e.args:
+                            return ev(e.args[0])
+                        if nm.endswith(".zeros_like"):
+                            return sp.Integer(0)
+                        if nm.endswith(".ones_like"):
+                            return sp.Integer(1)
+                        if at in ("clone", "detach", "contiguous") and isinstance(e.func, ast.Attribute):
+                            return ev(e.func.value)
+                        if at in ("clamp_min", "clamp") and isinstance(e.func, ast.Attribute):
+                            lo = e.args[0] if e.args else next((k.value for k in e.keywords if k.arg == "min"), None)
+                            return ev(e.func.value) if chart == "generic" else ev(lo)
+                        if nm.endswith(".clamp") or nm.endswith(".clamp_min"):
+                            lo = e.args[1] if len(e.args) > 1 else next((k.value for k in e.keywords if k.arg == "min"), None)
+                            return ev(e.args[0]) if chart == "generic" else ev(lo)
+                        if nm.endswith(".sqrt") and e.args:
+                            return sp.sqrt(ev(e.args[0]))
+                    raise AnalysisError(f"frame: `{short(norm(e), 50)}`")
+                for st in f.body:
+                    if not (isinstance(st, ast.Assign) and len(st.targets) == 1):
+                        continue
+                    tg = st.targets[0]
+                    try:
+                        if isinstance(tg, ast.Name):
+                            if tg.id == "tmp":
+                                env["tmp"] = t          # sign(z): +-1 on the pole chart, never used on the generic chart
+                                continue
+                            env[tg.id] = ev(st.value)
+                        elif isinstance(tg, ast.Subscript) and isinstance(tg.value, ast.Name) and tg.value.id in ("ca", "sa", "cb", "sb"):
+                            # masked store: applies on the generic chart (the mask is xy >= eps)
+                            if chart == "generic":
+                                env[tg.value.id] = ev(st.value)
+                    except AnalysisError:
+                        if isinstance(tg, ast.Name):
+                            env.pop(tg.id, None)
+                    if all(k in env for k in ("ca", "sa", "cb", "sb")) and isinstance(tg, ast.Name) and tg.id == "sb":
+                        pass
+                vals[chart] = {k: env.get(k) for k in ("ca", "sa", "cb", "sb")}
+            for chart, v in vals.items():
+                if any(v[k] is None for k in v):
+                    raise AnalysisError(f"{qual}: frame angles not interpretable on the {chart} chart ({v})")
+                if chart == "generic":
+                    az = sp.simplify(v["ca"] ** 2 + v["sa"] ** 2 - 1)
+                    po = sp.simplify((v["cb"] ** 2 + v["sb"] ** 2 - 1).subs(z ** 2, 1 - x ** 2 - y ** 2))
+                else:
+                    sub = {x: 0, y: 0, z: t}
+                    az = sp.simplify((v["ca"] ** 2 + v["sa"] ** 2 - 1).subs(sub).subs(t ** 2, 1))
+                    po = sp.simplify((v["cb"] ** 2 + v["sb"] ** 2 - 1).subs(sub).subs(t ** 2, 1))
+                n += 1
+                ctx.check(az == 0 and po == 0, "R4", m, f, qual, f"{chart} chart", f"{qual}: (ca, sa) and (cb, sb) are unit vectors on the {chart} chart",
+                          f"{qual}: on the {chart} chart ca^2 + sa^2 - 1 = {az}, cb^2 + sb^2 - 1 = {po} (ca = {v['ca']}, sa = {v['sa']}, cb = {v['cb']}, sb = {v['sb']}): the frame is "
+                          f"singular there, pi-type overlaps of a bond on the z axis are scaled or dropped and the energy is not rotation invariant")
+    if n < 2:
+        raise AnalysisError("Euler-angle frame builders not found")
+
+
+def _bad(e):
+    raise AnalysisError(f"frame: operator {norm(e)}")
